@@ -70,13 +70,13 @@ where
                 if self.method.exec(&edge) {
                     let v = edge.1.clone();
                     if !visited.contains(v.key()) {
+                        visited.insert(v.key().clone());
+                        result.push(edge);
                         if let Some(ref t) = self.target {
                             if v.key() == t {
                                 return true;
                             }
                         }
-                        visited.insert(v.key().clone());
-                        result.push(edge);
                         queue.push(Reverse(v));
                     }
                 }
@@ -96,13 +96,13 @@ where
                 if self.method.exec(&edge) {
                     let v = edge.1.clone();
                     if !visited.contains(v.key()) {
+                        visited.insert(v.key().clone());
+                        result.push(edge);
                         if let Some(ref t) = self.target {
                             if v.key() == t {
                                 return true;
                             }
                         }
-                        visited.insert(v.key().clone());
-                        result.push(edge);
                         queue.push(v);
                     }
                 }
